@@ -11,7 +11,8 @@
 (* frame, and the server tasks stay alive.                                 *)
 EXTENDS Server, Json, IOUtils
 
-CONSTANT QCapT            \* the server's default result queue capacity
+CONSTANTS QCapT,          \* the server's default result queue capacity
+          LimitT          \* max_concurrent_connections the recorder configures
 
 Rec == ndJsonDeserialize(IOEnv.TRACE)
 
@@ -44,8 +45,16 @@ Matches(c, s, evw, idseq, seen) ==
           /\ evw[i][3] = TRUE
           /\ x.kind = "formerr" => evw[i][2] = 1
 
+\* a failed connection setup leaves no trace in the server
+T_OpenFail ==
+  /\ IsEv("openfail") /\ E.alive = TRUE /\ E.cl = TRUE
+  /\ UNCHANGED <<cn, rx, ids, nw, lostn>>
+
+\* the recorder never has more than LimitT peers connected, so a
+\* connection must be taken on (not dropped) whatever happened before
 T_Open ==
-  /\ IsEv("open") /\ E.alive = TRUE
+  /\ IsEv("open") /\ E.alive = TRUE /\ E.cl = FALSE
+  /\ Cardinality({c \in DOMAIN cn : cn[c].st = "open"}) < LimitT
   /\ cn' = cn @@ (E.c :> EnvCredit(EnvOpen(InitConn(Dev, QCapT)), 1000000))
   /\ rx' = rx @@ (E.c :> <<>>) /\ ids' = ids @@ (E.c :> <<>>) /\ nw' = nw @@ (E.c :> 0)
   /\ UNCHANGED lostn
@@ -84,7 +93,7 @@ T_Dgram ==
         /\ d.sent[1].kind = "formerr" => E.w[1][2] = 1
   /\ UNCHANGED <<cn, rx, ids, nw, lostn>>
 
-TNext == T_Open \/ T_Chunk \/ T_Abort \/ T_Dgram
+TNext == T_Open \/ T_OpenFail \/ T_Chunk \/ T_Abort \/ T_Dgram
 TSpec == TInit /\ [][TNext]_tvars
 
 ConnInvariants == \A c \in DOMAIN cn : EachOnce(cn[c]) /\ IdPreserved(cn[c]) /\ QueueBounded(cn[c])
